@@ -246,6 +246,91 @@ theorem indexOf_none {α : Type} (key : Val α) (len : Option Nat) (h : valI64 k
     indexOf key len = Option.none := by
   unfold indexOf; rw [h]
 
+/-! ## small facts used by the property theorems -/
+
+theorem getD_range (C : Option Int) (h : OptInI64 C) : InI64 (C.getD 1) := by
+  cases C with
+  | none => simp [InI64]
+  | some x => simpa [OptInI64] using h
+
+theorem clampI64_zero_iff (x : Int) : clampI64 x = 0 ↔ x = 0 := by
+  unfold clampI64 i64Min i64Max
+  repeat' split
+  all_goals omega
+
+theorem castInt_range (b : Nat) :
+    i64Min ≤ F64.castInt i64Min i64Max b ∧ F64.castInt i64Min i64Max b ≤ i64Max := by
+  simp only [F64.castInt]
+  repeat' split
+  all_goals (unfold i64Min i64Max at *; omega)
+
+theorem f64ToI64_range (b : Nat) (x : Int) (h : f64ToI64 b = some x) : i64Min ≤ x ∧ x ≤ i64Max := by
+  simp only [f64ToI64] at h
+  split at h
+  · cases h; exact castInt_range b
+  · cases h
+
+theorem tryInt_usize_none_of_i64 {α : Type} (key : Val α) (n : Nat)
+    (h1 : valI64 key = Option.none) (h2 : valUsize key = some n) : 9223372036854775808 ≤ n := by
+  unfold valI64 tryInt at h1
+  unfold valUsize tryInt at h2
+  split at h1
+  next harm =>
+    rw [if_pos harm] at h2
+    cases hp : key.payload with
+    | none => rw [hp] at h2; simp at h2
+    | some x =>
+      rw [hp] at h1 h2
+      simp only [] at h1 h2
+      by_cases hr : 0 ≤ x ∧ x ≤ usizeMax
+      · rw [if_pos hr] at h2
+        simp only [Option.map_some, Option.some.injEq] at h2
+        split at h1
+        · cases h1
+        · next hn => unfold i64Min i64Max usizeMax at *; omega
+      · rw [if_neg hr] at h2; simp at h2
+  next harm => rw [if_neg harm] at h2; simp at h2
+
+theorem indexOf_neg_of_none {α : Type} (key : Val α) (i : Int) (n : Nat) (hk : valI64 key = some i)
+    (hi : indexOf key (some n) = Option.none) : valUsize key = Option.none := by
+  have hneg : i < 0 := by
+    unfold indexOf at hi; rw [hk] at hi
+    by_cases h : i < 0
+    · exact h
+    · simp [h] at hi
+  unfold valI64 tryInt at hk
+  unfold valUsize tryInt
+  split at hk
+  next harm =>
+    rw [if_pos harm]
+    cases hp : key.payload with
+    | none => rfl
+    | some x =>
+      rw [hp] at hk; simp only [] at hk ⊢
+      split at hk
+      · cases hk; rw [if_neg (by unfold usizeMax; omega)]; rfl
+      · cases hk
+  next => cases hk
+
+theorem indices_rev (n : Nat) : PySlice.indices n none none (-1) = (List.range n).map (fun j => n - 1 - j) := by
+  simp only [PySlice.indices, PySlice.adjust, PySlice.clampNeg]
+  have h1 : ¬ ((-1 : Int) > 0) := by omega
+  simp only [h1, if_false]
+  by_cases hn : n = 0
+  · subst hn; simp
+  · have : (-1 : Int) < (n : Int) - 1 := by omega
+    simp only [this, if_true]
+    have e : (((n : Int) - 1 - -1 - 1) / - -1 + 1).toNat = n := by
+      have : ((n : Int) - 1 - -1 - 1) / - -1 = (n : Int) - 1 := by
+        rw [show (- -1 : Int) = 1 by omega, Int.ediv_one]; omega
+      rw [this]; omega
+    rw [e]
+    apply List.map_congr_left
+    intro j hj
+    simp only [List.mem_range] at hj
+    omega
+
+
 /-! ## Python's view of values (specification side) -/
 
 /-- the Python sequence a value stands for: `str`, `bytes`, `tuple`, or a list (sequences and
@@ -255,7 +340,7 @@ inductive PySeq (α : Type) where
   | bytes (bs : List UInt8)
   | tuple (xs : List α)
   | list (xs : List α)
-  deriving Repr
+  deriving Repr, DecidableEq
 
 def pyView {α : Type} : Val α → Option (PySeq α)
   | .str _ bs => some (.str (chars bs))
